@@ -1,3 +1,4 @@
 From Coq Require Import Extraction ExtrOcamlBasic.
-From BV Require Import lib.ExtractBase lib.Ints gen.Params_gen model.SerBase model.SerStore.
-Extraction "model.ml" extract_base obfuscate xor_stream bytes_okb.
+From BV Require Import lib.ExtractBase lib.Ints gen.Params_gen model.SerBase model.SerTx model.SerStore.
+Extraction "model.ml" extract_base obfuscate xor_stream bytes_okb
+  write_record read_raw_block read_block flip_byte undo_read_ok_after_flip bytes_eq ser_header.
